@@ -119,7 +119,8 @@ class ProbeMixin:
         o = k.get("order", a[0] if a else None)
         returned = getattr(o, "_vf_returned", None)
         pre = (o.is_buy, o.kind, o.price, o.volume, o.ttl, o.placed_at, o.order_id)
-        info = dict(running=self._is_running, mp=self.get_market_price(), mp0=self.get_market_price(0))
+        info = dict(running=self._is_running, mp=self.get_market_price(), mp0=self.get_market_price(0),
+                    all_running=all(m.is_running for m in self.simulator.markets))
         l = super()._add_order(*a, **k)
         post = (o.order_id, o.market_id, o.placed_at, o.agent_id, o.is_buy, o.kind, o.volume, o.price, o.ttl)
         W.rec("acc", self.market_id, l, o, pre, returned, post, info)
@@ -130,7 +131,7 @@ class ProbeMixin:
         l = super()._cancel_order(*a, **k)
         o = c.order
         post = (o.order_id, o.market_id, c.placed_at, o.placed_at, o.agent_id, o.is_buy, o.kind, o.volume, o.price, o.ttl)
-        W.rec("can", self.market_id, l, o, post, dict(running=self._is_running))
+        W.rec("can", self.market_id, l, o, post, dict(running=self._is_running, all_running=all(m.is_running for m in self.simulator.markets)))
         return l
 
     def _execution(self):
